@@ -13,7 +13,8 @@ own = [n for n in names if n.startswith("own-")]
 caught = set(r.split("|")[1].strip() for r in rows if "| caught (run" in r)
 missed_final = [n for n in names if n not in caught]
 before_missed = sorted(set(r.split("|")[1].strip() for r in rows if "| MISSED | caught" in r))
-summary = ("**Result.** %d seeded changes (%d from sub-agents in four rounds, %d of my own). With the final checks, quick tier: %d caught, %d not caught "
+rounds = len(set(n.split("-")[1] for n in agent if len(n.split("-")) == 3))
+summary = ("**Result.** %d seeded changes (%d from sub-agents in " + str(rounds) + " rounds, %d of my own). With the final checks, quick tier: %d caught, %d not caught "
            "(%s). Measured misses of earlier versions of the checks that the strengthening closed: %d (%s).\n\n" % (
                len(names), len(agent), len(own), len(caught), len(missed_final), ", ".join(missed_final) or "none",
                len(before_missed), ", ".join(before_missed)))
